@@ -496,6 +496,13 @@ impl Work<Context, AnyWorkId, Error> for GlyphWork {
                     num_points += contour.len();
                     contour_ends.push(num_points - 1);
                 }
+                // glyf (end points of contours) and maxp count points in 16 bits
+                if num_points > u16::MAX as usize {
+                    return Err(Error::OutOfBounds {
+                        what: format!("'{}' number of points", self.glyph_name),
+                        value: num_points.to_string(),
+                    });
+                }
                 (
                     name,
                     point_seqs_for_simple_glyph(
